@@ -142,6 +142,14 @@ class Intervals:
                     c = canon_le(fc)
                     if c is not None:
                         r.append((c, fc))
+                elif fc[0] == "Bool" and fc[2] is True and fc[1].op == "bin" and fc[1].args[0] == "BitAnd":
+                    # conjunction of comparisons (a desugared range test): both hold
+                    for side in (fc[1].args[1], fc[1].args[2]):
+                        if side.op == "bin" and side.args[0] in ("Lt", "Le", "Gt", "Ge", "Eq", "Ne"):
+                            f2 = (side.args[0], side.args[1], side.args[2])
+                            c = canon_le(f2)
+                            if c is not None:
+                                r.append((c, f2))
                 elif fc[0] == "val":
                     # switch on an integer value: t == v / t not in (..)
                     r.append((("val", fc[1], fc[2], fc[3]), fc))
